@@ -47,6 +47,9 @@ func runFamily(r *Reporter, prop string, runs []famRun, configs func(c *ProgCase
 					continue
 				}
 				inScope, what := judge(c, obs)
+				if os.Getenv("VERIF_VERBOSE") == "2" {
+					fmt.Printf("OBS %s on %s: scope=%v %s | %s\n", oneLine(c.Prog), cfg, inScope, obs.Describe(), what)
+				}
 				if !inScope {
 					continue
 				}
